@@ -27,6 +27,7 @@ package table
 //@   results dAtA, err
 //@   requires m != nil
 //@   ensures err == nil ==> validCmdBytes(dAtA) == cmdValid(m)
+//@   ensures err == nil ==> batchLen(dAtA) == len(m.Batch) && fresh(dAtA)
 //@   modifies nothing
 
 // the Raft node host behind a table: ghost counters of proposals and reads; only commands that
@@ -490,3 +491,72 @@ package table
 //@   modifies m.lastTables, m.store.rHas, m.store.rPair, m.store.nwk, m.store.wVal, m.store.wVer, m.store.wDel, m.store.wPrevHas, m.store.wPrev, world.clock
 //@   loop 0 invariant m != nil
 //@   loop 1 invariant -1 <= rangeindex && rangeindex < len(stop) && m != nil
+
+// ---------------------------------------------------------------- restore: stream -> proposals (C07)
+
+//@ import io "io"
+//@ import backoff "github.com/cenkalti/backoff/v4"
+
+// A stream reader delivers one message per Read (framing: C18). nrec counts the delivered messages
+// that are records, i.e. decode to a command with a key-value pair (isRec of the message bytes).
+//@ ghostfield any.nrec Int
+//@ uninterp func isRec(b Bytes) Bool
+//@ iface io.Reader.Read
+//@   assumed
+//@   params r, p
+//@   results n, err
+//@   ensures 0 <= n && n <= len(p)
+//@   ensures err == nil ==> r.nrec == old(r.nrec) + (isRec(bytesOf(p[:n])) ? 1 : 0)
+//@   ensures err != nil ==> r.nrec == old(r.nrec)
+//@   modifies r.nrec, elems(p)
+//@ func regattapb.(*Command).Reset
+//@   assumed
+//@   params m
+//@   requires m != nil
+//@   modifies fields(m)
+// UnmarshalVT copies: the decoded pair is a new object
+//@ func regattapb.(*Command).UnmarshalVT
+//@   assumed
+//@   params m, dAtA
+//@   results err
+//@   requires m != nil
+//@   ensures err == nil ==> (m.Kv != nil) == isRec(bytesOf(dAtA)) && (m.Kv != nil ==> fresh(m.Kv))
+//@   modifies fields(m)
+//@ func backoff.NewExponentialBackOff
+//@   assumed
+//@   ensures result != nil && fresh(result)
+//@   modifies nothing
+//@ func backoff.Permanent
+//@   assumed
+//@   ensures result != nil
+//@   modifies nothing
+// Retry(op, b): modelled as one call of op whose result is Retry's result (attempts that returned an
+// error are taken to have had no effect, see SyncPropose)
+//@ func backoff.Retry
+//@   assumed
+//@   params o, b
+//@   callsonce o
+
+// one proposal attempt: success = the batch bytes were proposed (their elements counted)
+//@ func (*Manager).readIntoTable$1
+//@   results err
+//@   requires *m != nil && (*m).nh != nil && (*m).log != nil
+//@   ensures err == nil ==> (*m).nh.nelem == old((*m).nh.nelem) + batchLen(*bb)
+//@   ensures err != nil ==> (*m).nh.nelem == old((*m).nh.nelem)
+//@   modifies (*m).nh.lastRes, (*m).nh.lastErr, (*m).nh.lastCmd, (*m).nh.nelem
+
+// readIntoTable: every record read from the stream is proposed, for every value of the
+// in-memory-log-size setting (0 included): records read == batch elements proposed + elements still
+// pending in the batch (loop invariant), the pending batch is empty on success; nothing but records
+// is ever put into a batch (no nil element, so the index-carrying DUMMY adds no pair).
+//@ func (*Manager).readIntoTable
+//@   params m, id, reader
+//@   results err
+//@   requires m != nil && m.nh != nil && m.log != nil && reader != nil
+//@   ensures [C07.all] err == nil ==> m.nh.nelem - old(m.nh.nelem) == reader.nrec - old(reader.nrec)
+//@   before regattapb.(*Command).MarshalVT assert [C07.nonil] forall j int :: 0 <= j && j < len(m.Batch) ==> m.Batch[j] != nil
+//@   modifies reader.nrec, m.nh.lastRes, m.nh.lastErr, m.nh.lastCmd, m.nh.nelem
+//@   loop 0 invariant cmd != nil && batchCmd != nil && fresh(cmd) && fresh(batchCmd) && cmd != batchCmd && fresh(msg) && len(msg) == 4194304 && estimatedSize >= 0 && !last && backOff != nil
+//@   loop 0 invariant [C07.all.count] reader.nrec - old(reader.nrec) == m.nh.nelem - old(m.nh.nelem) + len(batchCmd.Batch)
+//@   loop 0 invariant [C07.nonil] forall j int :: 0 <= j && j < len(batchCmd.Batch) ==> batchCmd.Batch[j] != nil
+//@   loop 0 invariant isNilSlice(batchCmd.Batch) || fresh(batchCmd.Batch)
